@@ -720,6 +720,51 @@ def bounded_queue_skipped_tickets(facts, rep, clause):
                    'other forever (path: %s)' % bad, ln=co['ln'], key_extra='skip|%s|%s' % (fn.p, co['ln']))
     if n < 2:
         raise AnalysisBroken('bounded queue: head ticket claims not found (%d)' % n)
+    # exceptional path: micro_queue::pop moves the item out with the user's assignment, which may throw after the pop finalizer
+    # has been armed - the slot is vacated (the entry is destroyed, head_counter advances) but the function is left by the
+    # exception.  The claim must be announced on that path too: the call sits under a guard / try_call handler that announces.
+    from rules.C03 import try_call_sites
+    m = 0
+    for u, (fn, callers) in sorted(merged.items()):
+        pops = [c for c in calls_named(fn, ('pop',)) if (c[3].get('cls') or '').endswith('micro_queue')]
+        for pos, sx, node, d in pops:
+            m += 1
+            guarded = False
+            for gpos, gs, gnode, gd in calls_named(fn, ('make_raii_guard',)):
+                lam = [facts.fns.get(fn.nodes[x].get('fn')) for a in gnode.get('a', []) for x in fn.subtree(a) if fn.nodes[x].get('k') == 'lambda']
+                lam = [h for h in lam if h is not None]
+                ann = False
+                for h in lam:
+                    def h_announce(p_, e_, h=h):
+                        if announces_here(h, e_):
+                            return True
+                        # a captured functor parameter of the enclosing function (skipped_ticket) called from the guard
+                        if isinstance(e_, int) and h.nodes[e_].get('k') == 'call' and h.nodes[e_].get('op') == '()':
+                            cap = h.n(h.strip(h.nodes[e_].get('obj', -1))) if h.nodes[e_].get('obj', -1) >= 0 else {}
+                            nm = cap.get('n')
+                            for pp in fn.d.get('params', []):
+                                if pp.get('n') and pp['n'] == nm:
+                                    idx = fn.d['params'].index(pp)
+                                    ok_all = bool(callers)
+                                    for g, cnode in callers:
+                                        args = cnode.get('a', [])
+                                        ls = [facts.fns.get(g.nodes[x].get('fn')) for x in (g.subtree(args[idx]) if idx < len(args) else [])
+                                              if g.nodes[x].get('k') == 'lambda']
+                                        ls = [z for z in ls if z is not None]
+                                        if not ls or not all(every_path_passes(z, 'entry', lambda p2, e2, z=z: announces_here(z, e2))[0] for z in ls):
+                                            ok_all = False
+                                    return ok_all
+                        return False
+                    if every_path_passes(h, 'entry', h_announce)[0]:
+                        ann = True
+                if ann and every_path_passes(fn, 'entry', lambda p_, e_: p_ == gpos, end=pos)[0]:
+                    guarded = True
+            rep.ob(clause, 'K9', fn, 'the claimed ticket is announced even when moving the item out throws (line %s)' % node['ln'], guarded,
+                   'micro_queue::pop runs the user\'s assignment; if it throws, the slot is vacated (entry destroyed, head_counter advanced) but '
+                   'nobody tells the producers: a push blocked on the full queue stays blocked although the queue holds no item, and the next '
+                   'consumer waits for that producer', ln=node['ln'], key_extra='skip-exc|%s|%s' % (fn.p, node['ln']))
+    if m < 2:
+        raise AnalysisBroken('bounded queue: micro_queue::pop call sites not found (%d)' % m)
 
 
 def serializer_request_word(facts, rep):
